@@ -1,4 +1,8 @@
-//! C20 — correspondence driver (stub: not built yet).
+//! C20 — compile-time contracts.  This property has no line protocol (`"protocol": "none"` in
+//! props/C20.json): the implementation under test is the compiler itself, driven by
+//! props/c20_extra.py, which compiles the probe catalogue (probes/*.rs and generated
+//! assert_send / assert_sync programs) against the easy-ml rlib this harness crate was linked
+//! with.  The module only exists so that `emlv gen|run C20` are total.
 
 use crate::util::*;
 
@@ -12,6 +16,6 @@ impl Runner {
     }
 
     pub fn step(&mut self, _toks: &[&str]) -> String {
-        "unimplemented".into()
+        "no-line-protocol".into()
     }
 }
